@@ -208,3 +208,56 @@ Proof.
     (split; [unfold BS; cbn; intuition discriminate|]);
     (split; [unfold NL; cbn; intuition discriminate|reflexivity]).
 Qed.
+
+(* ------------------------------------------------------------------ lists of ANY subtype *)
+
+(* every item round-trips on its own, through a single-line, backslash-free, non-empty text *)
+Definition items_rt (so : soracles) (o : oracles) (sub : ty) (vs : list val) : Prop :=
+  Forall (fun v => exists s, serialize so o false sub v = SStr s /\ deserialize o sub s = Ok v /\ plain_item s) vs.
+
+Lemma items_rt_exist so o sub vs :
+  items_rt so o sub vs ->
+  exists items, Forall2 (fun v s => serialize so o false sub v = SStr s) vs items
+                /\ Forall plain_item items
+                /\ Forall2 (fun s v => deserialize o sub s = Ok v) items vs.
+Proof.
+  induction vs as [|x vs IH]; intros R; [exists []; repeat constructor|].
+  inversion R as [|? ? (s & S & D & P) R']; subst.
+  destruct (IH R') as (items & A & B & C).
+  exists (s :: items). repeat split; constructor; auto.
+Qed.
+
+(* The list syntax round trip for List(subtype = anything): tuples and frozensets. *)
+Lemma list_roundtrip_gen so o opt uq sub raw v :
+  deserialize o (TList opt uq sub) raw = Ok v ->
+  (forall vs, v = VTuple vs \/ v = VSet vs -> items_rt so o sub vs) ->
+  exists s, serialize so o false (TList opt uq sub) v = SStr s
+            /\ deserialize o (TList opt uq sub) s = Ok v.
+Proof.
+  intros D PL. unfold deserialize in D. cbn [deserialize_gen] in D.
+  destruct (mapM _ _) as [vs0| |] eqn:M; cbn [rbind] in D; try discriminate.
+  set (vs := if uq then dedup vs0 else vs0) in *.
+  destruct (negb opt && is_nil vs) eqn:REQ; [discriminate|]. injection D as <-.
+  assert (items_rt so o sub vs) as PLv by (apply PL; destruct uq; auto).
+  assert (vs = if uq then dedup vs0 else vs0) as EQ by reflexivity. clearbody vs.
+  destruct (items_rt_exist so o sub vs PLv) as (items & FS & FP & FD).
+  destruct vs as [|x vs'] eqn:EV.
+  - exists []. split; [destruct uq; reflexivity|].
+    unfold deserialize. cbn [deserialize_gen decode]. unfold list_items. cbn [existsb].
+    cbn. destruct uq; cbn [is_nil] in *; rewrite REQ; reflexivity.
+  - assert (is_nil vs = false) as NV by (rewrite EV; reflexivity).
+    rewrite <- EV in *. clear EV.
+    assert (items <> []) as INE by (destruct vs; [discriminate|inversion FS; discriminate]).
+    exists (list_text items). split.
+    + unfold serialize.
+      assert (ser_items (serialize_gen true so o false sub) vs = inl (Some items)) as SI.
+      { apply ser_items_of_Forall2; [exact FS|]. eapply Forall_impl; [|exact FP]. now intros a (NEa & _). }
+      destruct uq; cbn [serialize_gen]; rewrite NV, SI, list_text_join by assumption; reflexivity.
+    + unfold deserialize. cbn [deserialize_gen].
+      rewrite (decode_no_bs _ (list_text_no_bs _ FP)), (list_items_text _ FP INE).
+      change (deserialize_gen true o sub) with (deserialize o sub).
+      rewrite (mapM_of_Forall2 _ _ _ FD). cbn [rbind].
+      destruct uq.
+      * rewrite EQ, dedup_idem, <- EQ, REQ. reflexivity.
+      * rewrite REQ. reflexivity.
+Qed.
